@@ -27,8 +27,32 @@ class _Gen:
         helpers = ""
         if "helper" in self.features:
             helpers = "int hf(const int x) {\n  return 3 * x + 1;\n}\n\n"
-        src = helpers + ("@kernel void k(const int n, const int *in0, const int *in1, int *out0, int *out1, float *fout) {\n"
-                         + "".join(nests) + "}\n")
+        body = "".join(nests)
+        sig = ["const int n", "const int *in0", "const int *in1", "int *out0", "int *out1", "float *fout"]
+        if r.random() < 0.3:
+            self.features.add("restrict")
+            sig[1] = "@restrict " + sig[1]
+            if r.random() < 0.5:
+                sig[2] = "@restrict " + sig[2]
+        if r.random() < 0.3 and "out0[g] =" in body:
+            # out0 viewed as an 8 x 8 array: out0(g % 8, g / 8) is out0[g]
+            self.features.add("dim")
+            sig[3] = "int *out0 @dim(8, 8)"
+            parts = body.split("out0[g] =")
+            body = parts[0] + "".join(("out0(g % 8, g / 8) =" if r.random() < 0.7 else "out0[g] =") + x for x in parts[1:])
+        lines = body.split("\n")
+        out = []
+        for ln in lines:
+            if ln.startswith("  for (") and ln.endswith("@outer) {"):
+                if r.random() < 0.2:
+                    self.features.add("max_inner_dims")
+                    out.append("  @max_inner_dims(8)")
+                if r.random() < 0.15:
+                    self.features.add("simd_length")
+                    ln = ln.replace("; @outer) {", "; @outer @simd_length(4)) {")
+            out.append(ln)
+        body = "\n".join(out)
+        src = helpers + ("@kernel void k(" + ", ".join(sig) + ") {\n" + body + "}\n")
         n = r.choice([0, 1, 4, 8, 12, 16, 16, 24, 32])
         return {"source": src, "n": n, "features": sorted(self.features)}
 
@@ -189,7 +213,11 @@ def reference(src):
     down_from = None
     for line in src.split("\n"):
         l = line
+        if l.strip().startswith("@max_inner_dims("):
+            continue
         l = l.replace("@kernel void k(", 'extern "C" void kref(')
+        l = l.replace("@restrict ", "").replace(" @dim(8, 8)", "").replace(" @simd_length(4)", "")
+        l = l.replace("out0(g % 8, g / 8)", "out0[g % 8 + 8 * (g / 8)]")
         l = re.sub(r";\s*@tile\(\d+, @outer, @inner\)\)", ")", l)
         l = re.sub(r";\s*@outer\)", ")", l)
         if re.search(r";\s*@inner\)", l):
